@@ -246,7 +246,8 @@ def build_config(cfg):
     if cfg.get("share_document") and cfg.get("carrier", "dict") in ("dict", "odict"):
         key = id(cfg)
         if key not in _DOC_CACHE or _DOC_CACHE[key][0] is not cfg:
-            _DOC_CACHE.clear()
+            if len(_DOC_CACHE) > 8:
+                _DOC_CACHE.clear()
             _DOC_CACHE[key] = (cfg, carry(cfg))
         return Config(_DOC_CACHE[key][1])
     return Config(carry(cfg))
